@@ -2,6 +2,8 @@ package wit
 
 import (
 	"fmt"
+	"reflect"
+	"time"
 
 	"github.com/philpearl/plenc"
 	pnull "github.com/philpearl/plenc/null"
@@ -48,4 +50,39 @@ func init() {
 			return nil
 		}},
 	)
+}
+
+func init() {
+	All = append(All, W{ID: "D25", Property: "C01", What: "ProtoCompatibleArrays: a top-level slice of length-delimited elements (not inside a struct) is written without any framing and does not round-trip", Run: func() error {
+		p := newP(true, false)
+		in := []string{"a", "b"}
+		var out []string
+		if err := guard(func() error { return roundTrip(p, &in, &out) }); err != nil {
+			return err
+		}
+		return expectEq(out, in)
+	}})
+}
+
+func init() {
+	All = append(All, W{ID: "D26", Property: "C08", What: "a time.Time field with a tag option that selects no codec (flat, proto, ...) is silently encoded as an empty struct: the time is lost", Run: func() error {
+		type T struct {
+			A time.Time  `plenc:"1,flat"`
+			P *time.Time `plenc:"2,proto"`
+		}
+		p := newP(false, false)
+		if _, err := p.CodecForType(reflect.TypeOf(T{})); err != nil {
+			return nil // an error naming the problem is what C08 asks for
+		}
+		now := time.Unix(1700000000, 5).UTC()
+		in := T{A: now, P: &now}
+		var out T
+		if err := guard(func() error { return roundTrip(p, &in, &out) }); err != nil {
+			return err
+		}
+		if !out.A.Equal(now) || out.P == nil || !out.P.Equal(now) {
+			return fmt.Errorf("accepted, but the times read back as %v / %v", out.A, out.P)
+		}
+		return nil
+	}})
 }
